@@ -7,5 +7,6 @@ python3 translate/terminal_to_lean.py --out lean/MeddlyModel/Gen/Terminal.lean -
 python3 translate/levels_to_lean.py --out lean/MeddlyModel/Gen/Levels.lean --repo /repo || true
 python3 translate/hashstream_to_lean.py --out lean/MeddlyModel/Gen/HashStream.lean --repo /repo || true
 python3 translate/counterarray_to_lean.py --out lean/MeddlyModel/Gen/CounterArray.lean --repo /repo || true
+python3 translate/nodeheaders_to_lean.py --out lean/MeddlyModel/Gen/NodeHeaders.lean --repo /repo || true
 (cd lean && lake build)
 python3 vlib/build.py plain asan
